@@ -25,8 +25,8 @@ ANCHORS = [('oslo_utils.strutils', 'bool_from_string'),
 RULE = ('bool: 12 documented words x EVERY letter-case spelling (82) x 11 paddings x strict x 5 defaults '
         '(exhaustive), derived near-misses, non-str subjects, seeded arbitrary text against a regex model; '
         'is_int_like: canonical renderings (int and str, to 2000 bits) and 14 non-canonical derivations of each; '
-        'validate_integer: every bound of 14 (min,max) settings -1/0/+1 as int and str plus random values and '
-        'non-canonical spellings; check_string_length: code-point counts around min/max for 16 settings x 6 '
+        'validate_integer: every bound of 16 (min,max) settings -2..+2 as int and str plus random values and '
+        'non-canonical spellings; check_string_length: code-point counts around min/max for 18 settings x 7 '
         'alphabets, non-str types; is_uuid_like: random 128-bit values x 7 decorations x 3 cases, hex length '
         '30..34, one non-hex character per position class; generate_uuid draws. distinct by (function, input, '
         'settings); non-trivial = everything except the plain lower-case unpadded word / in-range int cases')
